@@ -12,13 +12,13 @@ RULE = (
     "was raised by the data; state = (effective flags, kind, handled errors so far, record index)"
 )
 BOUNDS = {
-    "quick": "63 policies x 11 overrides x 6 error kinds x (no fault, 4 single positions, 6 pairs) via Config object; all 40 pairs of override tokens x 7 policies over {collect,fail,stop} x 6 kinds x 4 positions; the 63 policies x "
+    "quick": "63 policies x 11 overrides x 7 error kinds x (no fault, 4 single positions, 6 pairs) via Config object; all 40 pairs of override tokens x 7 policies over {collect,fail,stop} x 7 kinds x 4 positions; the 63 policies x "
     "5 kinds x 4 single positions again via config.ini",
     "thorough": "as quick plus all 2-flag override combinations over different flags x 63 policies, all 3-flag combinations x 7 policies, 5-record files via config.ini and 7-record files (1,2 faults) for every policy",
 }
 ASSUMPTIONS = [
     "error kinds: argument-type mismatch add(#2,1) on 'x'; function rule substring(#0,int(#1)) with -1; Python exception mod(#2,#1) "
-    "with 0; error in a nested argument; error on the right of '->'; the erroring function standing alone as the match component",
+    "with 0; error in a nested argument; error on the right of '->'; the erroring function standing alone as the match component; the erroring component followed by a stop() that fires mid-line",
     "number of error records per erroring line is not asserted (a nested error is reported by child and parent), only their line numbers",
 ]
 CHUNK = 150
@@ -34,6 +34,10 @@ KINDS = {
     "nested": ('@s = not(above(add(#2, 1), 2))', ["abc", "2", "5"], ["abc", "2", "x"]),
     "right": ('yes() -> @s = add(#2, 1)', ["abc", "2", "5"], ["abc", "2", "x"]),
     "bare": ('add(#2, 1)', ["abc", "2", "5"], ["abc", "2", "x"]),  # the erroring function is itself the match component (evaluated through matches())
+    # the erroring component is followed by a stop() that fires in the middle of record 1 (and by one more component): the error of that
+    # line must still be handled (docs/functions/stop.md: components before a stop() take effect). Equivalent to a 2-record file whose
+    # record 1 is not returned.
+    "midstop": ('@s = add(#2, 1) stop(#3 == "1") yes()', ["abc", "2", "5"], ["abc", "2", "x"]),
 }
 
 
@@ -130,7 +134,11 @@ def run_case(case):
         sandbox.write_config()
     else:
         o = run.run_csvpath(text, policy=pol)
-    exp = refpolicy.outcome(pol, ov, bad, n)
+    if kind == "midstop":
+        exp = refpolicy.outcome(pol, ov, [b for b in bad if b <= 1], 2)
+        exp["returned"] = [x for x in (exp["returned"] or []) if x != 1] if exp["returned"] is not None else None
+    else:
+        exp = refpolicy.outcome(pol, ov, bad, n)
     cstr = f"policy={','.join(pol)} override={','.join(ov) or '-'} kind={kind} bad={bad} n={n} via={case['via']}"
     viol = []
 
